@@ -253,19 +253,22 @@ def conversion_oracle(case=None, deltas=(1e-8, 1e-5, 1e-3, 0.1), sigmas=(0.5, 1.
     from scipy.stats import norm
 
     orders = np.array(L.default_alphas() + [80.0, 128.0, 256.0, 512.0])
-    for s in sigmas:
+    # the order grid is the caller's: ascending (the default), descending, and integer orders followed by fractional ones
+    grids = [orders, orders[::-1].copy(), np.array([o for o in orders if float(o).is_integer()] + [o for o in orders if not float(o).is_integer()])]
+    for orders in grids:
+      for s in sigmas:
         for d in deltas:
-            mu = 1.0 / s
-            f = lambda e: norm.cdf(-e / mu + mu / 2) - math.exp(e + norm.logcdf(-e / mu - mu / 2)) - d  # noqa
-            true = brentq(f, -40, 2000)   # epsilon may be negative for large delta
-            try:
-                eps, _ = R.get_privacy_spent(orders=orders, rdp=orders / (2 * s * s), delta=d)
-            except Exception as e:
-                return ("C06:get-privacy-spent-raises", f"get_privacy_spent raises {type(e).__name__}: {e}", {"sigma": s, "delta": d})
-            if not (eps >= true - 1e-9):
-                return ("C06:conversion-below-true",
-                        f"get_privacy_spent on the exact Gaussian RDP curve (sigma={s}, delta={d}) returns {eps}, below the exact epsilon {true}",
-                        {"sigma": s, "delta": d, "observed": float(eps), "true": true})
+              mu = 1.0 / s
+              f = lambda e: norm.cdf(-e / mu + mu / 2) - math.exp(e + norm.logcdf(-e / mu - mu / 2)) - d  # noqa
+              true = brentq(f, -40, 2000)   # epsilon may be negative for large delta
+              try:
+                  eps, _ = R.get_privacy_spent(orders=orders, rdp=orders / (2 * s * s), delta=d)
+              except Exception as e:
+                  return ("C06:get-privacy-spent-raises", f"get_privacy_spent raises {type(e).__name__}: {e}", {"sigma": s, "delta": d})
+              if not (eps >= true - 1e-9):
+                  return ("C06:conversion-below-true",
+                          f"get_privacy_spent on the exact Gaussian RDP curve (sigma={s}, delta={d}) returns {eps}, below the exact epsilon {true}",
+                          {"sigma": s, "delta": d, "observed": float(eps), "true": true})
     return None
 
 
